@@ -613,3 +613,77 @@ def _c16_guards(ctx):
     ctx.extra.setdefault('engine_m', {})['regions'] = m.regions
     ctx.extra['engine_m']['mir_dump_s'] = round(_cache.get('dump_s', 0), 1)
     ctx.functions |= {r['function'] for r in m.regions}
+
+
+# ================================================================================================ C04 / C19: integers absorbed into the transcript
+def transcript_integers(ctx):
+    try:
+        _transcript_integers(ctx)
+    except lib.Inconclusive as e:
+        ctx.inconclusive.append('Engine M: %s' % e)
+
+
+def _transcript_integers(ctx):
+    m = M(ctx)
+    f = m.fn(r'transcripts\.rs.*>::new$')
+    # (1) N, T, M: the three append_u64 calls right after the generator loop take the usize parameters cast to u64 (an injective cast)
+    blocks = [b for b in sorted(f.blocks, key=lambda s: int(s[2:])) if 'Transcript::append_u64' in f.blocks[b][1]]
+    if len(blocks) != 5:
+        raise lib.Inconclusive('RangeProofTranscript::new: expected 5 append_u64 call sites, found %d' % len(blocks))
+    params = {'N': '_4', 'T': '_5', 'M': '_6'}
+    want_ty = [f.locals.get(p) for p in params.values()]
+    if want_ty != ['usize'] * 3:
+        raise lib.Inconclusive('RangeProofTranscript::new: parameter types changed: %s' % want_ty)
+    ev = Evaluator(f)
+    start = blocks[0]
+    paths = ev.run(start=start, stops=(re.search(r'\[return: (bb\d+)', f.blocks[blocks[2]][1]).group(1),))
+    m.note_region(f, 'append_u64 of bit length / extension degree / aggregation factor', sorted(set(sum([p.trace for p in paths], []))))
+    calls = [o for p in paths for o in p.obs if o['kind'] == 'call' and o['callee'].endswith('Transcript::append_u64')]
+    if len(paths) != 1 or len(calls) != 3:
+        raise lib.Inconclusive('append_u64 region: %d paths, %d calls' % (len(paths), len(calls)))
+    for (label, local), o in zip(params.items(), calls):
+        lab = o['args'][1]
+        arg = o['args'][2]
+        sym = ev.sym(local + '@0', 'usize').e
+        lab_ok = isinstance(lab, (Str, Ref, Opaque))
+        if not isinstance(arg, BV):
+            raise lib.Inconclusive('append_u64 argument is opaque')
+        m.oblige('transcript: "%s" absorbs the parameter itself as u64 (for all usize): argument == %s' % (label, local), [arg.e != sym], key='C19:transcript-integers',
+                 pred='wire_vector_mismatch')
+        s2 = z3.BitVec('other', 64)
+        m.oblige('transcript: the u64 absorbed under "%s" is injective in the parameter' % label, [arg.e == z3.substitute(arg.e, (sym, s2)), sym != s2], key='C19:transcript-integers',
+                 pred='wire_vector_mismatch')
+    labels = [re.search(r'const b"(.*?)"', ' '.join(f.blocks[b][0])) for b in blocks[:3]]
+    # (2) promise loop body: Some(p) -> append_u64(label, p); None -> append_u64(label, 0); one call per element
+    head = f.walk_back(blocks[3], r'as Iterator>::next\(')
+    ev = Evaluator(f)
+    lp = ev.run(start=head, stops=(m.loop_exit(f, head),))
+    m.note_region(f, 'promise loop body', sorted(set(sum([p.trace for p in lp], []))))
+    cont = [p for p in lp if p.end[0] == 'backedge']
+    if len(cont) != 2:
+        raise lib.Inconclusive('promise loop: expected two continuing paths (Some / None), got %d' % len(cont))
+    u64s = [v for k, v in ev.sym_decl.items() if isinstance(v, BV) and v.ty == 'u64']
+    if len(u64s) != 1:
+        raise lib.Inconclusive('promise loop: promise payload symbol not found (%s)' % [k for k in ev.sym_decl])
+    pv = u64s[0].e
+    seen_some = seen_none = False
+    for p in cont:
+        calls = [o for o in p.obs if o['kind'] == 'call' and o['callee'].endswith('Transcript::append_u64')]
+        if len(calls) != 1 or not isinstance(calls[0]['args'][2], BV):
+            raise lib.Inconclusive('promise loop: an iteration does not make exactly one append_u64 call')
+        arg = calls[0]['args'][2].e
+        if str(pv) in str(arg) or any(str(pv) in str(c) for c in p.pc):
+            seen_some = True
+            m.oblige('transcript: a present promise is absorbed as its own value (all u64)', p.pc + [arg != pv], key='C04:promise-encoding', pred='challenges_unchanged',
+                     detail={'n': 64, 'x': 1, 'm': 1, 'cap': 1, 'datum': 'promise 0', 'rounds': 6})
+            p2 = z3.BitVec('other_promise', 64)
+            m.oblige('transcript: the absorbed u64 is injective in the promise (two different promises never collide)', p.pc + [arg == z3.substitute(arg, (pv, p2)), pv != p2],
+                     key='C04:promise-encoding', pred='challenges_unchanged', detail={'n': 64, 'x': 1, 'm': 1, 'cap': 1, 'datum': 'promise 0', 'rounds': 6})
+            m.oblige('transcript: Some(p) collides with an absent promise only for p == 0', p.pc + [arg == 0, pv != 0], key='C04:promise-encoding', pred='challenges_unchanged',
+                     detail={'n': 64, 'x': 1, 'm': 1, 'cap': 1, 'datum': 'promise 0', 'rounds': 6})
+        else:
+            seen_none = True
+            m.oblige('transcript: an absent promise is absorbed as 0', p.pc + [arg != 0], key='C04:promise-encoding', pred='wire_vector_mismatch')
+    m.ctx.expect(seen_some and seen_none, 'C04:promise-encoding', 'promise loop: Some / None arms not both observed', None, None)
+    ctx.extra.setdefault('engine_m', {})['regions'] = ctx.extra.get('engine_m', {}).get('regions', []) + m.regions
+    ctx.functions |= {r['function'] for r in m.regions}
